@@ -162,7 +162,7 @@ func genValidPattern(t *rapid.T) (gpat, string) {
 var c13Defects = []string{"unicode-host", "uppercase-host", "userinfo", "path", "query", "fragment", "leading-space", "trailing-space", "empty-port",
 	"zero-port", "overrange-port", "overlong-port", "leading-zero-port", "default-port", "null", "file-scheme", "hex-ipv4", "short-ipv4", "leading-zero-ipv4",
 	"expanded-ipv6", "uppercase-ipv6", "zoned-ipv6", "ipv4-mapped-ipv6", "wildcard-middle", "double-wildcard", "partial-label-wildcard", "partial-port-wildcard",
-	"wildcard-before-ip", "domain-254", "label-64", "missing-slashes", "uppercase-scheme", "wildcard-252", "tab-inside", "missing-scheme", "empty-label", "hyphen-edge-label"}
+	"wildcard-before-ip", "domain-254", "label-64", "missing-slashes", "uppercase-scheme", "wildcard-252", "tab-inside", "missing-scheme", "empty-label", "hyphen-edge-label", "overlong-scheme"}
 
 // applyDefect plants exactly one documented defect into a valid pattern.
 // It returns "" when the defect does not apply to this base.
@@ -280,6 +280,10 @@ func applyDefect(t *rapid.T, g gpat, defect string) string {
 			w = "*."
 		}
 		return g.scheme + "://" + w + host + orStr2(g.port)
+	case "overlong-scheme":
+		// "All valid schemes (no longer than 64 bytes) ... are permitted"
+		n := pick(t, "schlen", []int{65, 65, 66, 100})
+		return "a" + strings.Repeat(pick(t, "schc", []string{"a", "b", "1", "+"}), n-1) + s[len(g.scheme):]
 	case "hyphen-edge-label":
 		// a label that starts or ends with a hyphen is not a letter-digit-hyphen label (RFC 5890 2.3.1)
 		host := pick(t, "hyph", []string{"-example.com", "example-.com", "www.-a.com", "www.a-.com", "a.b-", "-a", "a-", "example.com-", "-.example.com", "my-service-"})
@@ -516,7 +520,7 @@ func c13Check(c C13Case, rec *Recorder) *Disc {
 func c13Prop() Prop[C13Case] {
 	return Prop[C13Case]{ID: "C13", Gen: c13Gen, Check: c13Check,
 		Rule: "generator: patterns built from the documented grammar (scheme up to 64 bytes incl. near-'file' schemes; LDH domains up to exactly 253 bytes, 63-byte labels, Punycode, trailing dot; IPv4/IPv6 canonical literals via net/netip; *. before domains up to 251 bytes; " +
-			"ports absent/*/1..65535/other scheme's default; a forced 'every maximum at once' branch: 64-byte scheme + 253-byte domain + trailing dot + 5-digit port) - valid by construction - and 37 single-defect mutations of them - invalid by construction. " +
+			"ports absent/*/1..65535/other scheme's default; a forced 'every maximum at once' branch: 64-byte scheme + 253-byte domain + trailing dot + 5-digit port) - valid by construction - and 38 single-defect mutations of them - invalid by construction. " +
 			"Oracle: valid => accepted, wildcard-free patterns match themselves verbatim (GET and preflight), wildcard patterns match an instance, and (40% of valid cases) the same when the pattern is listed at any position among 1-5 companion patterns (the same host under other schemes and ports, ancestor domains plain or under a wildcard, descendants, siblings, or unrelated valid patterns): the list is accepted and every wildcard-free member matches itself; invalid => rejected, every reported error an *UnacceptableOriginPatternError with Value == the string, Reason in {invalid, prohibited} (prohibited for null and file); and (35% of invalid cases) listed at any position among 1-3 valid entries (often the single asterisk) the list is rejected with an error naming the string. " +
 			"non-trivial = valid pattern with a component at a documented maximum, an IP literal, Punycode or trailing dot, or any invalid pattern; distinct by pattern string.",
 		Assumptions: []string{"grey zones not generated: https with IP host, '_' in schemes or labels, hyphens in label positions 3-4, TLD starting with a digit, *. + 251-byte domain + trailing dot"}}
